@@ -97,8 +97,12 @@ pub struct ExUtf8Error(std::str::Utf8Error);
     f = mp.fn("split_line")
     f.ret("ret")
     f.props_all = ["C06"]; f.props_safety = P13
+    # the stop predicate may be the fn item `is_newline` (eta-expanded) or a closure (annotated from its body)
     f.replace_all_re(r"(\w+)\.iter\(\)\.position\(is_newline\)", r"shim_slice_position(\1, |b: &u8| -> (r: bool) ensures r == spec_is_newline(*b) { is_newline(b) })", "R2",
-                     why="slice.iter().position(f) behind a shim; the fn item `is_newline` eta-expanded into a closure with its contract", min_count=1)
+                     why="slice.iter().position(f) behind a shim; the fn item `is_newline` eta-expanded into a closure with its contract", min_count=0)
+    f.replace_all_re(r"(\w+)\.iter\(\)\.position\((?=\|)", r"shim_slice_position(\1, ", "R2", why="slice.iter().position(p) behind a shim", min_count=0)
+    for occ in range(1, len(re.findall(r"\|c\|", f.orig)) + 1):
+        f.closure("|c|", occ=occ, params="|c: &u8|", ret="r: bool", spec="ensures r == ({specbody})", spec_map=SPEC_MAP)
     f.contract("""    ensures
         /*@L:error_line_is_the_first_line_with_its_terminator:C06*/ ret.0@ == bytes@.subrange(0, line_end(bytes@)) && ret.1@ == bytes@.subrange(line_end(bytes@), bytes@.len() as int),
         0 <= line_end(bytes@) <= bytes@.len(), bytes@.len() > 0 ==> line_end(bytes@) >= 1,""")
